@@ -22,7 +22,7 @@ def count_entry(E):
 WIGM_COUNTS_FIXED = ['droop.rules.wigm_prf.Rule.count', 'droop.rules.scotland.Rule.count']
 
 
-@contract(WIGM_COUNTS_FIXED, props=['C01', 'C09'])
+@contract(WIGM_COUNTS_FIXED, props=['C01', 'C09'], site_props=['C02', 'C04', 'C06', 'C07'])
 def wigm_family_count(self: 'any_rule'):
     "statutory WIGM rules (fixed-point arithmetic): same counter-level contract as the parametric rule"
     E = self.E
@@ -61,7 +61,7 @@ def batch_defeat() -> 'abs:Candidate':
     modifies()
 
 
-@contract('droop.rules.wigm.Rule.count', props=['C01', 'C09'], instances=['scaled', 'real'])
+@contract('droop.rules.wigm.Rule.count', props=['C01', 'C09'], site_props=['C02', 'C04', 'C06', 'C07'], instances=['scaled', 'real'])
 def wigm_count(self: 'WigmRule'):
     E = self.E
     requires(count_entry(E))
